@@ -16,6 +16,6 @@ meta = json.loads(p.read_text())
 meta['checks'] = {c: dict(detected=v['exit'] == 1, violations=[x.split('#')[-1].strip() for x in v['violations'][:4]])
                   for c, v in res['checks'].items()}
 p.write_text(json.dumps(meta, indent=1))
-print(name, {c: v['detected'] for c, v in meta['checks'].items()}, 'demo', res.get('demo_clean_passes'), res.get('demo_patched_fails'))
+print(name, {c: (v['exit'], 'detected' if v['exit'] == 1 else 'MISSED' if v['exit'] == 0 else 'MACHINERY') for c, v in res['checks'].items()}, 'demo', res.get('demo_clean_passes'), res.get('demo_patched_fails'))
 PY
 done
